@@ -25,20 +25,24 @@ META = {
     "an in-range line; anything else, a hang, or generated Python that compile() rejects is a violation)",
     "text": "Every string of <= k fragments over the 30-fragment core alphabet (delimiters, whitespace-control signs, "
     "brackets, quotes, backslash, operators, a name, a digit, if/endif), every string of <= k-2 fragments over the "
-    "68-fragment keyword alphabet (bare and framed in a block / variable tag), every delete/duplicate/swap/replace "
+    "69-fragment keyword alphabet (bare and framed in a block / variable tag), every delete/duplicate/swap/replace "
     "mutation at distance <= d of the ~690 harvested test-suite templates, and 42 hostile identifiers "
     "(Python keywords, NFKC-colliding spellings, non-identifier \\w names, caller/varargs/kwargs, internal prefixes) in 27 "
     "fixed, 41 one-name and 32 two-name (every ordered pair) signature / call / assignment shapes, every unbounded lexer/parser "
     "construct stretched to 8-40 repetitions (unterminated and terminated string literals with seven kinds of tail in twelve tag "
     "positions, runs of each operator / bracket / name / digit / blank / delimiter, nestings up to 20 deep, long chains), and "
-    "every one of 84 expression positions filled with 13 nested filter/test expressions whose names occur once per template, is loaded through Environment.from_string, Environment.parse and Environment.compile(raw=True) "
+    "every one of 84 expression positions filled with 13 nested filter/test expressions whose names occur once per template, "
+    "every number spelling of <= 3 (4) fragments over ASCII and non-ASCII digits and number punctuation in 8 literal positions, and "
+    "47 empty / minimal statements alone, after six kinds of (conditional) extends and inside 16 container bodies (thorough: two "
+    "container levels), is loaded through Environment.from_string, Environment.parse and Environment.compile(raw=True) "
     "+ Python compile() under nine configurations (default, ASP-style shared-prefix delimiters, ${ } variables, line "
     "statements + line comments, trim+lstrip, keep_trailing_newline, async, sandboxed, i18n+do+loopcontrols+debug).",
-    "note": "Bounds: quick k=4 default / k=3 other configs, keyword alphabet <=2 (framed <=2), d<=1 on the 400 shortest seeds "
+    "note": "Bounds: quick k=4 default / k=3 other configs, keyword alphabet <=2 (framed <=2), d<=1 on the 300 shortest seeds "
     "(40 in the other configs), identifier pairs over 20 (10) names; thorough k=5 default / k=4 elsewhere, keyword alphabet "
     "<=3 (framed <=3 in default/asp/line/ext, <=2 elsewhere), d<=1 on all seeds (300 shortest in the other configs), d<=2 on the 60 (15) shortest seeds, all pairs.  "
     "compile(raw)+compile() is skipped only for core-alphabet strings of the maximal length that from_string already "
-    "loaded or Environment.parse already rejected (same parse/generate/compile steps).  Out of scope by construction: "
+    "loaded or Environment.parse already rejected (same parse/generate/compile steps); at k=5 (thorough, default config) the "
+    "maximal length goes through from_string alone; async and sandbox use k=3 in the thorough tier too.  Out of scope by construction: "
     "integer literals beyond the int-to-str digit limit and nesting beyond the recursion limit (both need inputs far "
     "larger than any bound here).  'Renderable' is checked as 'a Template object whose module code compiled'; "
     "rendering belongs to other properties.",
@@ -55,7 +59,7 @@ SIGMA1 = ["{{", "}}", "{%", "%}", "{#", "#}", "-", "+", " ", "\n",
           "if", "endif"]
 KEYWORDS = ("x 0x 1e else elif for in endfor set endset block endblock macro endmacro call endcall filter "
             "endfilter raw endraw extends include import from with endwith autoescape endautoescape trans "
-            "pluralize endtrans not is and or recursive scoped required").split()
+            "pluralize endtrans not is and or recursive scoped required print").split()
 SIGMA2 = SIGMA1 + KEYWORDS
 
 DELIMS = ("{{", "}}", "{%", "%}", "{#", "#}")
@@ -308,11 +312,13 @@ class Checker:
             "script": _script(self.ci, src, api),
         })
 
-    def check(self, src, full=True, seconds=CPU_ALARM):
-        """Apply the oracle to one source.  full=False skips the third entry
-        point when from_string already succeeded (it repeats the same parse,
-        generate and compile() steps) or when Environment.parse already raised
-        (compile(raw=True) starts with the very same parse)."""
+    def check(self, src, full=2, seconds=CPU_ALARM):
+        """Apply the oracle to one source.  full=2: all three entry points.
+        full=1 skips the third one when from_string already succeeded (it
+        repeats the same parse, generate and compile() steps) or when
+        Environment.parse already raised (compile(raw=True) starts with the
+        very same parse).  full=0: from_string only (it runs the same parse,
+        generate and compile() itself)."""
         p = self.p
         if self.hangs >= HANGS_PER_SHARD or (HANGS is not None and HANGS.value >= HANGS_PER_RUN):
             raise StopShard()
@@ -354,10 +360,12 @@ class Checker:
                         r = env.from_string(src)
                         ok = loaded = isinstance(r, self.Template)
                     elif api == "parse":
+                        if full == 0:
+                            continue
                         r = env.parse(src)
                         ok = isinstance(r, self.TemplateNode)
                     else:
-                        if (loaded or parse_failed) and not full:
+                        if full == 0 or ((loaded or parse_failed) and full == 1):
                             continue
                         r = env.compile(src, raw=True)
                         ok = isinstance(r, str)
@@ -416,7 +424,9 @@ def shard_strings(arg, p):
         pre, post = translate_fragment(ci, "{{") + " ", " " + translate_fragment(ci, "}}")
 
     def run(frags):
-        full = which != 1 or len(frags) < k
+        # entry points: all three below the maximal length; at the maximal length of the core alphabet
+        # from_string + parse (+ compile(raw) when those two disagree), and from_string alone when k >= 5
+        full = 2 if (which != 1 or len(frags) < k) else (1 if k < 5 else 0)
         for s in joins(frags):
             chk.check(pre + s + post, full)
         if len(p.samples) < 2 and len(frags) == k:
@@ -736,7 +746,7 @@ def shard_long(arg, p):
     try:
         for i in range(part, len(cases), nparts):
             tag, src = cases[i]
-            chk.check(translate_source(ci, src), True, 2.0)
+            chk.check(translate_source(ci, src), 2, 2.0)
         if cases:
             p.sample({"space": "L", "config": chk.cfg, "kind": cases[part][0], "source": translate_source(ci, cases[part][1])}, cap=1)
     finally:
@@ -815,10 +825,100 @@ def shard_exprs(arg, p):
         p.count("cases_expr_positions", p.evals)
 
 
+# --------------------------------------------------------------------------
+# (g) number spellings with non-ASCII digits
+#
+# str.isdigit / \\d accept digits Python's own number grammar rejects; every
+# spelling of <= k fragments over ASCII and non-ASCII digits and the number
+# punctuation is put into each position where a literal can occur.
+
+NUM_ALPHABET = ["1", "0", "२", "५", "１", "٣", "²", ".", "e", "E", "_", "0x", "0b", "-", "+", "a"]
+NUM_POSITIONS = ["{{ N }}", "{{ x|f(N) }}", "{{ x.N }}", "{{ x[N] }}", "{% set a = N %}", "{% if N %}y{% endif %}",
+                 "{{ f(k=N) }}", "{{ x[N:N] }}"]
+
+
+@guarded
+def shard_numbers(arg, p):
+    ci, k, first = arg
+    chk = Checker(p, ci, "N")
+    pos = [translate_source(ci, s) for s in NUM_POSITIONS]
+
+    def rec(s, n):
+        for t in pos:
+            chk.check(t.replace("N", s))
+        if n < k:
+            for f in NUM_ALPHABET:
+                rec(s + f, n + 1)
+
+    try:
+        rec(NUM_ALPHABET[first], 1)
+        p.sample({"space": "N", "config": chk.cfg, "first_fragment": NUM_ALPHABET[first], "max_fragments": k}, cap=1)
+    finally:
+        p.count("cases_number_spellings", p.evals)
+
+
+# --------------------------------------------------------------------------
+# (h) statements with empty / minimal bodies in every frame kind
+#
+# The places where generated Python needs a `pass`: each statement is put
+# alone, after an unconditional / conditional / dynamic extends, and inside
+# the body of every kind of container (one level; two levels as well).
+
+EMPTY_STATEMENTS = [
+    "", "{% print %}", "{%- print -%}", "{% print x %}", "{% print x, y %}", "{{ '' }}", "{# c #}", "{% raw %}{% endraw %}",
+    "{% block c %}{% endblock %}", "{% block c scoped %}{% endblock %}", "{% block c required %}{% endblock %}",
+    "{% macro n() %}{% endmacro %}", "{% macro n(a, b=1) %}{% endmacro %}",
+    "{% for i in x %}{% endfor %}", "{% for i in x %}{% else %}{% endfor %}", "{% for i in x if i %}{% endfor %}",
+    "{% for i in x recursive %}{% endfor %}", "{% for i in x %}{% print %}{% endfor %}",
+    "{% if x %}{% endif %}", "{% if x %}{% elif y %}{% else %}{% endif %}", "{% if x %}{% print %}{% else %}{% print %}{% endif %}",
+    "{% with %}{% endwith %}", "{% with a = 1 %}{% endwith %}", "{% filter upper %}{% endfilter %}",
+    "{% set v %}{% endset %}", "{% set v | upper %}{% endset %}", "{% set v = 1 %}", "{% set ns.v = 1 %}",
+    "{% call n() %}{% endcall %}", "{% call(a) n() %}{% endcall %}", "{% autoescape true %}{% endautoescape %}",
+    "{% autoescape x %}{% endautoescape %}", "{% trans %}{% endtrans %}", "{% trans count=1 %}{% pluralize %}{% endtrans %}",
+    "{% do x %}", "{% include 'a' %}", "{% include x ignore missing without context %}", "{% import 'a' as m %}",
+    "{% from 'a' import b %}", "{% extends 'b' %}", "{% break %}", "{% continue %}", "{% debug %}",
+    "{{ super() }}", "{{ caller() }}", "{{ self.c() }}", "{{ loop.index }}",
+]
+EMPTY_PREFIXES = ["", "{% extends 'a' %}", "{% if x %}{% extends 'a' %}{% endif %}", "{% extends x %}",
+                  "{% if x %}{% extends 'a' %}{% else %}{% extends 'b' %}{% endif %}", "{% for i in x %}{% extends 'a' %}{% endfor %}"]
+EMPTY_CONTAINERS = [
+    "S", "{% block b %}S{% endblock %}", "{% macro m() %}S{% endmacro %}", "{% for j in y %}S{% endfor %}",
+    "{% for j in y %}{% else %}S{% endfor %}", "{% for j in y if j recursive %}S{% endfor %}", "{% if z %}S{% endif %}",
+    "{% if z %}{% else %}S{% endif %}", "{% if z %}{% elif w %}S{% endif %}", "{% call m() %}S{% endcall %}",
+    "{% filter lower %}S{% endfilter %}", "{% set u %}S{% endset %}", "{% with %}S{% endwith %}",
+    "{% autoescape false %}S{% endautoescape %}", "S{% print %}", "{% print %}S",
+]
+
+
+def empty_cases(two_levels):
+    out = []
+    conts = list(EMPTY_CONTAINERS)
+    if two_levels:
+        conts += [a.replace("S", b) for a in EMPTY_CONTAINERS[1:14] for b in EMPTY_CONTAINERS[1:14]]
+    for pre in EMPTY_PREFIXES:
+        for c in conts:
+            for st in EMPTY_STATEMENTS:
+                out.append(pre + c.replace("S", st))
+    return out
+
+
+@guarded
+def shard_empty(arg, p):
+    ci, two, part, nparts = arg
+    chk = Checker(p, ci, "E")
+    cases = empty_cases(two)
+    try:
+        for i in range(part, len(cases), nparts):
+            chk.check(translate_source(ci, cases[i]))
+        p.sample({"space": "E", "config": chk.cfg, "source": translate_source(ci, cases[part * 7 % len(cases)])}, cap=1)
+    finally:
+        p.count("cases_empty_bodies", p.evals)
+
+
 def shard_any(job):
     kind, arg = job
     return {"long": shard_long, "exprs": shard_exprs, "strings": shard_strings, "corpus": shard_corpus,
-            "shapes": shard_shapes}[kind](arg)
+            "shapes": shard_shapes, "numbers": shard_numbers, "empty": shard_empty}[kind](arg)
 
 
 # --------------------------------------------------------------------------
@@ -838,7 +938,8 @@ def run(ctx: core.Ctx):
                 "space-between-adjacent-words joining; every distinct source at token-edit distance <= d (delete, "
                 "duplicate, swap adjacent, replace by any keyword-alphabet fragment) of each test-suite template; "
                 "every identifier (pair) in each signature/call shape; every long-run case (construct x length x tag position); "
-                "every expression position x nested filter/test expression; each under the listed configurations and "
+                "every expression position x nested filter/test expression; every number spelling x literal position; every "
+                "(extends prefix, container, empty statement); each under the listed configurations and "
                 "through from_string, parse and compile(raw)+compile().  Non-trivial = the case loaded successfully "
                 "or failed with a message that is not one of the lexer's (i.e. it got past tokenisation); distinct = "
                 "distinct (outcome class, message with quoted names and numbers masked)")
@@ -865,6 +966,17 @@ def run(ctx: core.Ctx):
     nparts = 4
     jobs = [("long", (ci, part, nparts)) for ci in range(len(CONFIGS)) for part in range(nparts)]
     jobs += [("exprs", (ci, part, 2)) for ci in range(len(CONFIGS)) for part in range(2)]
+    # (g) number spellings, (h) empty bodies
+    kn = {ci: ((3 if ci == 0 else 2) if q else (4 if ci == 0 else 3)) for ci in range(len(CONFIGS))}
+    jobs += [("numbers", (ci, kn[ci], first)) for ci in range(len(CONFIGS)) for first in range(len(NUM_ALPHABET))]
+    bounds["k_number_spellings"] = {CONFIGS[ci][0]: kn[ci] for ci in kn}
+    bounds["number_alphabet"] = len(NUM_ALPHABET)
+    for ci in range(len(CONFIGS)):
+        two = not q  # two container levels in the thorough tier only
+        ncases = len(empty_cases(two))
+        parts = max(1, ncases // 3000)
+        jobs += [("empty", (ci, two, part, parts)) for part in range(parts)]
+        bounds.setdefault("empty_body_cases", {})[CONFIGS[ci][0]] = ncases
     bounds["long_run_lengths"] = list(LONG_N)
     bounds["long_run_cases_per_config"] = len(long_cases(0))
     bounds["expr_position_cases_per_config"] = len(expr_cases())
@@ -873,6 +985,9 @@ def run(ctx: core.Ctx):
     tuples = 0
     for ci in range(len(CONFIGS)):
         k = k_def if ci == 0 else k_oth
+        if not q and CONFIGS[ci][0] in ("async", "sandbox"):
+            k = k_oth - 1  # same lexer and parser as the default configuration; only code generation differs
+        bounds.setdefault("k_core_alphabet", {})[CONFIGS[ci][0]] = k
         shards += string_shards(ci, 1, k)
         tuples += string_count(len(alphabet(ci, 1)), k)
         shards += string_shards(ci, 2, k2)
@@ -891,7 +1006,7 @@ def run(ctx: core.Ctx):
     cshards = []
     d1 = {ci: (n if ci == 0 else (40 if q else 300)) for ci in range(len(CONFIGS))}
     if q:
-        d1[0] = min(n, 400)
+        d1[0] = min(n, 300)
     d2 = {ci: (0 if q else (60 if ci == 0 else 15)) for ci in range(len(CONFIGS))}
     for ci in range(len(CONFIGS)):
         ids = list(range(d2[ci], d1[ci]))  # the first d2 seeds are covered at d = 2 (which includes d <= 1)
